@@ -164,6 +164,25 @@ def check_scanned(case):
         bad = compare_view(json_view(doc), data, "scanned-json")
         if bad:
             return bad
+        # scan again on top of the cache: unchanged, then with a copy of one file at a new path in a new folder
+        first = sorted(case["files"])[0]
+        for step in ("rescan-unchanged", "rescan-after-copy"):
+            if step == "rescan-after-copy":
+                dst = root / "copied" / "deep" / ("copy_of_" + first.split("/")[-1])
+                dst.parent.mkdir(parents=True, exist_ok=True)
+                dst.write_bytes((root / first).read_bytes())
+            res = cli.run_scan(root, ".")
+            if res.exc:
+                return (f"{step}:{res.exc[0]}", res.exc[1])
+            doc = json.loads((root / ".codelimit_cache" / "codelimit.json").read_text())
+            data = {"root": str(root), "files": [
+                {"path": k, "language": e["language"], "checksum": e["checksum"], "lengths": [m["value"] for m in e["measurements"]]}
+                for k, e in doc["codebase"]["files"].items()]}
+            bad = compare_view(json_view(doc), data, f"scanned-json:{step}")
+            if bad:
+                return bad
+            if step == "rescan-after-copy" and f"copied/deep/copy_of_{first.split('/')[-1]}" not in doc["codebase"]["files"]:
+                return (f"scanned-json:{step}:copy-missing", f"the copied file is not in the report: {sorted(doc['codebase']['files'])}")
         old = os.getcwd()
         os.chdir(root)
         try:
